@@ -184,7 +184,7 @@ def s7(ck, an):
     # reset seeds the rate (and cash) quote before any transmitter event is processed
     fr = an.fa("TradingEnv.reset")
     seeds = [c for c in fr.calls_named("process_EventNBBO")]
-    rate_seed = [c for c in seeds if "interest_rate" in ast.unparse(c)]
+    rate_seed = [c for c in seeds if c.args and "interest_rate" in fr.sym.canon(c.args[0])]      # by value id: the event may be built in a temporary first
     procs = fr.calls_to("TradingEnv._process_latent_events", "TradingEnv._process_nonlatent_events")
     if not rate_seed:
         ck.fail("ORD", "S7.rate-seeded-first", fr.f.short, fr.f.loc, "reset does not seed the reference-rate book", construct="missing:rate seed")
